@@ -189,7 +189,7 @@ def main(argv=None):
         if kf["id"] not in printed_kf:
             printed_kf.add(kf["id"])
             n = sum(1 for _v, k in knowns if k["id"] == kf["id"])
-            lines.append(f"KNOWN-FINDING: property={prop} {kf['id']}: {kf['what']} ({n} cases this run)")
+            lines.append(f"KNOWN-FINDING: property={prop} {kf['id']}: {kf.get('short', kf['what'])} ({n} hits this run)")
     seen_replay = set()
     for v, _ in viols:
         cid = v["case_id"]
